@@ -121,6 +121,19 @@ fn poplar(run: &Run, bits: usize, tapes: &[(String, Tape)]) {
     } else {
         let mut v: Vec<Vec<bool>> = vec![vec![false; bits], vec![true; bits], (0..bits).map(|i| i % 2 == 0).collect(), (0..bits).map(|i| i == bits - 1).collect(), (0..bits).map(|i| i == 0).collect()];
         v.push((0..bits).map(|i| (i * 7 + 3) % 5 < 2).collect());
+        // one-bit departures from the all-zero and from the alternating string at every position (every
+        // position of inputs up to 300 bits; byte/block/limb boundaries beyond): a dependence of the key
+        // material on any single input bit, byte or 16-byte block shows as a differing pair
+        let positions: Vec<usize> = if bits <= 300 { (0..bits).collect() } else { (0..bits).filter(|i| i % 128 < 2 || i % 128 > 125 || *i + 9 > bits).collect() };
+        for base in [0usize, 2] {
+            for &pos in &positions {
+                let mut w = v[base].clone();
+                w[pos] = !w[pos];
+                v.push(w);
+            }
+        }
+        v.sort();
+        v.dedup();
         v
     };
     par::for_each(tapes.len() as u64, |ti| {
@@ -196,8 +209,11 @@ fn main() {
     for bits in 1..=if q { 4 } else { 6 } {
         poplar(&run, bits, &tapes);
     }
-    for bits in [8usize, 17, 64, 65] {
+    for bits in [8usize, 17, 64, 65, 120, 121, 128, 130, 256] {
         poplar(&run, bits, &tapes[..tapes.len().min(4)]);
+    }
+    for bits in if q { vec![1024usize] } else { vec![1024usize, 4099] } {
+        poplar(&run, bits, &tapes[..tapes.len().min(3)]);
     }
     if run.get("poplar1_public_share_differs_pairs") == 0 {
         run.fail("poplar1/vacuous", "Poplar1 public shares never differed across inputs (vacuous comparison)", json!({}));
